@@ -157,6 +157,22 @@ def mapKeyOf (k : Target) (name : String) : DVal :=
   | .string => .str .owned (strBytes name)
   | _ => .str .transient (strBytes name)
 
+/-- tuple-like targets: only a struct column answers (`visit_seq` over its fields) -/
+def tupleClaim (f : ArrFields → LFields → R (Option (List DVal))) (a : Arr) (lv : LVal) : Claim :=
+  match a, lv with
+  | .struct _ _ fs, .struct lfs => andThenL (f fs lfs) fun ds => must (.seq (DVals.ofList ds))
+  | _, .null => mustFail "null into a non-Option target"
+  | _, _ => na
+
+/-- struct targets by field name: only a struct column answers; no claim when names repeat on either side -/
+def structClaim (tnames : List String) (f : ArrFields → LFields → R (Option (List (DVal × DVal)))) (a : Arr) (lv : LVal) : Claim :=
+  match a, lv with
+  | .struct _ _ fs, .struct lfs =>
+    if !nodupNames (ArrFields.names fs) || !nodupNames tnames then na
+    else andThenE (f fs lfs) fun es => must (.map (DEntries.ofList es))
+  | _, .null => mustFail "null into a non-Option target"
+  | _, _ => na
+
 mutual
 /-- structural recursion over the target (lists, entries and struct fields of the value go through the
 non-recursive combinators above) -/
@@ -175,16 +191,8 @@ def cast : Target → Arr → LVal → Claim
     | a, .bin b => if isBinaryLike a then castBinSeq t b else na
     | _, .null => mustFail "null into a non-Option target"
     | _, _ => na
-  | .tuple ts, a, lv =>
-    match a, lv with
-    | .struct _ _ fs, .struct lfs => andThenL (castTuple ts fs lfs) fun ds => must (.seq (DVals.ofList ds))
-    | _, .null => mustFail "null into a non-Option target"
-    | _, _ => na
-  | .tupleStruct ts, a, lv =>
-    match a, lv with
-    | .struct _ _ fs, .struct lfs => andThenL (castTuple ts fs lfs) fun ds => must (.seq (DVals.ofList ds))
-    | _, .null => mustFail "null into a non-Option target"
-    | _, _ => na
+  | .tuple ts, a, lv => tupleClaim (fun fs lfs => castTuple ts fs lfs) a lv
+  | .tupleStruct ts, a, lv => tupleClaim (fun fs lfs => castTuple ts fs lfs) a lv
   | .map k v, a, lv =>
     match a, lv with
     | .struct _ _ fs, .struct lfs =>
@@ -195,13 +203,7 @@ def cast : Target → Arr → LVal → Claim
       andThenE (claimEntries (fun w => cast k ks w) (fun w => cast v vs w) es) fun es => must (.map (DEntries.ofList es))
     | _, .null => mustFail "null into a non-Option target"
     | _, _ => na
-  | .struct tfs, a, lv =>
-    match a, lv with
-    | .struct _ _ fs, .struct lfs =>
-      if !nodupNames (ArrFields.names fs) || !nodupNames (TFields.names tfs) then na
-      else andThenE (castFields tfs fs lfs) fun es => must (.map (DEntries.ofList es))
-    | _, .null => mustFail "null into a non-Option target"
-    | _, _ => na
+  | .struct tfs, a, lv => structClaim (TFields.names tfs) (fun fs lfs => castFields tfs fs lfs) a lv
   | .enum byIndex vs, a, lv =>
     match a, lv with
     | .union _ _ fs, .union t v =>
@@ -247,18 +249,8 @@ def castVariant : TVariants → Option Nat → String → Arr → LVal → Claim
 def castKind : VKind → Arr → LVal → Claim
   | .unit, child, v => if isNullArr child && v == .null then must .unit else na
   | .newtype t, child, v => cast t child v
-  | .tuple ts, child, v =>
-    match child, v with
-    | .struct _ _ fs, .struct lfs => andThenL (castTuple ts fs lfs) fun ds => must (.seq (DVals.ofList ds))
-    | _, .null => mustFail "null into a non-Option target"
-    | _, _ => na
-  | .struct tfs, child, v =>
-    match child, v with
-    | .struct _ _ fs, .struct lfs =>
-      if !nodupNames (ArrFields.names fs) || !nodupNames (TFields.names tfs) then na
-      else andThenE (castFields tfs fs lfs) fun es => must (.map (DEntries.ofList es))
-    | _, .null => mustFail "null into a non-Option target"
-    | _, _ => na
+  | .tuple ts, child, v => tupleClaim (fun fs lfs => castTuple ts fs lfs) child v
+  | .struct tfs, child, v => structClaim (TFields.names tfs) (fun fs lfs => castFields tfs fs lfs) child v
 end
 
 end SaModel.Read
